@@ -64,6 +64,11 @@ def plan(tier, seed):
         shards.append(("merge", c, 4))
     for c in range(4):
         shards.append(("pipeline", c, 4, tier))
+    # the overlaps between NEIGHBOURING scans that feed the pair table (properties.pairscans / pairrow; shared with C14): two peaks on
+    # adjacent rows can only share a label if their frame pair is found
+    for c in range(4):
+        shards.append(("scanpairs", c, 4, tier))
+    shards.append(("dataset", 4 if tier == "quick" else 5))
     k = seed % len(shards)
     return shards[k:] + shards[:k]
 
@@ -521,7 +526,95 @@ def warm():
     _run_merge(("merge", 0, 7))
 
 
+def _run_dataset(desc):
+    """the public entry to the merge, DataSet.pk2d / DataSet.pk4d (cached on the object) with DataSet.set_monitor in between: EVERY history
+    of up to `depth` steps over {pk2d, pk4d, set_monitor(a), set_monitor(b)} on a fresh DataSet; after every step the table handed out is
+    the one a direct pks_table.pk2d / pk2dmerge call gives for the scale factors of the monitor that is set NOW (none before the first)"""
+    _, depth = desc
+    import h5py, shutil, io, contextlib, warnings
+    from ImageD11.sinograms.properties import pks_table
+    from ImageD11.sinograms.dataset import DataSet
+    sh = Shard()
+    wd = os.path.join(os.path.dirname(os.path.dirname(os.path.dirname(os.path.abspath(__file__)))), ".work", "c15_ds_%d" % os.getpid())
+    shutil.rmtree(wd, ignore_errors=True)
+    os.makedirs(wd)
+    NY, NF = 3, 6
+    shape = (NY, NF)
+    omega = np.tile(np.linspace(0.5, 150.5, NF), (NY, 1))
+    dty = np.repeat(np.array([-0.1, 0.0, 0.1]), NF).reshape(shape)
+    mon = {"a": 1000.0 + 37.0 * ((np.arange(NY * NF) * 7) % 11).reshape(shape), "b": 10.0 + ((np.arange(NY * NF) * 5) % 13).reshape(shape)}
+    try:
+        with warnings.catch_warnings(), contextlib.redirect_stdout(io.StringIO()):
+            warnings.simplefilter("ignore")
+            ds0 = DataSet(dataroot=os.path.join(wd, "raw"), analysisroot=os.path.join(wd, "proc"), sample="smp", dset="ds")
+            os.makedirs(ds0.datapath); os.makedirs(ds0.analysispath)
+            scans = ["%d.1" % (k + 1) for k in range(NY)]
+            with h5py.File(ds0.masterfile, "w") as h:
+                for k, sc_ in enumerate(scans):
+                    g = h.create_group(sc_).create_group("measurement")
+                    for name in mon:
+                        g[name] = mon[name][k]
+            npks = 14
+            frm = np.array([0, 1, 1, 2, 4, 6, 7, 7, 8, 11, 12, 13, 16, 17])
+            pi = np.array([0, 2, 5, 6, 9, 3, 3]); pj = np.array([1, 3, 6, 8, 10, 2, 3])
+            per = np.bincount(frm // NF, minlength=NY)
+            slots = np.array([3, 2, 2])
+            tab = pks_table(npk=np.stack([per, slots, np.zeros(NY, int)], axis=1))
+            sI = 100 + 13 * np.arange(npks)
+            tab.pk_props[0] = 1 + np.arange(npks) % 5
+            tab.pk_props[1] = sI
+            tab.pk_props[2] = sI * ((np.arange(npks) * 37) % 200)
+            tab.pk_props[3] = sI * ((np.arange(npks) * 91) % 200)
+            tab.pk_props[4] = frm
+            tab.rc[0], tab.rc[1], tab.rc[2] = pi, pj, 1 + np.arange(len(pi))
+            tab.find_uniq()
+            tab.save(ds0.pksfile)
+            pksfile = ds0.pksfile
+
+            def direct(kind, scale):
+                t = pks_table.load(pksfile)
+                fn = t.pk2d if kind == "pk2d" else t.pk2dmerge
+                return {k_: np.array(v_) for k_, v_ in (fn(omega, dty) if scale is None else fn(omega, dty, scale_factor=scale)).items()}
+            want = {(kind, m): direct(kind, None if m is None else mon[m].mean() / mon[m]) for kind in ("pk2d", "pk4d") for m in (None, "a", "b")}
+            if all(np.array_equal(want[("pk4d", None)][k_], want[("pk4d", "a")][k_]) for k_ in want[("pk4d", None)]):
+                raise RuntimeError("the monitor does not change the merged table: the history check would be vacuous")
+            alphabet = ("pk2d", "pk4d", "set_monitor(a)", "set_monitor(b)")
+            for d_ in range(1, depth + 1):
+                for hist in itertools.product(alphabet, repeat=d_):
+                    if hist[-1].startswith("set_monitor"):
+                        continue                      # a history is judged at its reads; ending on a write adds nothing
+                    ds = DataSet(dataroot=os.path.join(wd, "raw"), analysisroot=os.path.join(wd, "proc"), sample="smp", dset="ds")
+                    ds.scans = scans; ds.shape = shape; ds.omega = omega.copy(); ds.dty = dty.copy()
+                    ds.guessbins()
+                    cur = None
+                    for pos, step in enumerate(hist):
+                        if step.startswith("set_monitor"):
+                            cur = step[12]
+                            ds.set_monitor(cur)
+                            continue
+                        got = ds.pk2d if step == "pk2d" else ds.pk4d
+                        w = want[(step, cur)]
+                        badk = [k_ for k_ in w if k_ not in got or not np.array_equal(np.asarray(got[k_]), w[k_])]
+                        if badk:
+                            sh.violation("DataSet.%s:not-the-table-for-the-monitor-that-is-set" % step,
+                                         {"kind": "dataset", "history": list(hist[:pos + 1])}, {"column": badk[0], "monitor_now": cur})
+                            break
+                    sh.evaluations += 1
+                    sh.nontrivial += 1
+                    sh.transitions += len(hist)
+    finally:
+        shutil.rmtree(wd, ignore_errors=True)
+    sh.outcomes.add(("dataset", depth))
+    sh.sample({"kind": "dataset", "depth": depth, "histories": int(sh.evaluations)}, limit=1)
+    return sh
+
+
 def run_shard(desc):
+    if desc[0] == "dataset":
+        return _run_dataset(desc)
+    if desc[0] == "scanpairs":
+        from vt.props import c14
+        return c14._run_scanpairs(desc)
     return {"graphs": _run_graphs, "structured": _run_structured, "merge": _run_merge, "pipeline": _run_pipeline}[desc[0]](desc)
 
 
@@ -531,6 +624,13 @@ def finalize(merged, tier, seed):
 
 
 def replay(case):
+    if case["kind"] == "dataset":
+        r = _run_dataset(("dataset", len(case["history"])))
+        r.violations = [v for v in r.violations if v["case"]["history"] == case["history"]]
+        return (not r.violations), {"violations": r.violations[:3]}
+    if case["kind"] == "scanpairs":
+        from vt.props import c14
+        return c14.replay(case)
     if case["kind"] == "graph":
         el = [tuple(e) for e in case["edges"]]
         gl = list(graphs(case["nodes"], max(1, len(el))))
